@@ -20,7 +20,7 @@ fn main() {
         // [u32; 10] copy of 5^135 and 9-digit chunks.  (1) every power constant, (2) generated boundary
         // inputs judged by the exact oracle, in the default, compact and alloc configurations.
         println!("MIRI-L32 pointer width = {} bits", usize::BITS);
-        for ci in [0usize, 1, 2] {
+        for ci in [0usize, 1, 2, 3] {
             println!("MIRI-CASE L32 tables {}", mlv::cfgs::CFGS[ci].name);
             if let Err(f) = mlv::props::c14::check_limb_dependent(&mlv::cfgs::CFGS[ci], &mut st) {
                 println!("MIRI-VIOLATION L32 tables: {}", f.message);
@@ -81,7 +81,7 @@ fn main() {
             let exp: i32 = f[3].parse().unwrap();
             let want = u64::from_str_radix(f[4].trim_start_matches("0x"), 16).unwrap();
             println!("MIRI-CASE L32F {i} {} {} ({} digits)", f[0], f[5], int.len() + frac.len());
-            for ci in [0usize, 1, 2, 6] {
+            for ci in [0usize, 1, 2, 3, 6] {
                 let cfg = &mlv::cfgs::CFGS[ci];
                 match mlv::runner::catch(|| cfg.parse(fmt, &int, &frac, exp)) {
                     Ok(bits) if bits == want => {}
